@@ -1,6 +1,7 @@
 import Typegen.Heck
 import Typegen.Names
 import Typegen.TablesExpected
+import Typegen.ParamFilter
 /-! # C04 — the object passed to invoke has exactly the keys Tauri deserialises (naming half)
 
 Tauri's command macro converts each Rust parameter name with `heck`'s `to_lower_camel_case`; the tool
@@ -86,5 +87,27 @@ theorem K15b_fixed_witness :
 /-- the literals of `is_tauri_parameter_type` (which parameters are framework-injected), re-read from the source on
     this run, are the ones `An.isTauriParamType` was written against -/
 theorem C04_source_table_injected_types : Exp.litsOf "is_tauri_parameter_type" = Exp.isTauriParameterType := by decide
+
+
+/-! ## which parameters become keys -/
+
+/-- **C04 (filter half)**: for a parameter list written in the statement's spellings, the value keys are exactly the
+    plain parameters, the channel keys exactly the `Channel<T>` parameters (each once, in order), and an injected
+    parameter (`AppHandle`, `State<..>`, `Window<..>`, `WebviewWindow`, `tauri::`-qualified forms, `tauri::ipc::Request`)
+    never yields a key -/
+theorem C04_keys_exactly_frontend_params (ps : List Pj.Param)
+    (h : ∀ p ∈ ps, p.patIdent.isSome = true ∧ (PF.kindOf p.ty).isSome = true) :
+    (An.extractParams ps).map (·.name) = (ps.filter fun p => PF.kindOf p.ty = some .plain).filterMap (·.patIdent) ∧
+    (An.extractChannels ps).map (·.param) = (ps.filter fun p => PF.kindOf p.ty = some .channel).filterMap (·.patIdent) :=
+  PF.C04_keys_exactly_frontend_params ps h
+
+/-- no parameter is both a value key and a channel key (the defect repaired by 755cfc6) -/
+theorem C04_never_both (t : Pj.GTy) (k : PF.Kind) (h : PF.kindOf t = some k) :
+    ¬ (An.isTauriParamType t = false ∧ (An.channelMessageType t).isSome = true) := by
+  have hf := PF.kind_facts t k h
+  cases k with
+  | injected => have := hf.1 rfl; simp [this.1]
+  | channel => have := hf.2.1 rfl; simp [this.1]
+  | plain => have := hf.2.2 rfl; simp [this.2]
 
 end TG.C04
